@@ -219,13 +219,23 @@ def run_verus(text, extra_args=(), tag='main'):
         args += ['--rlimit', '60']   # generous default (Verus default is 10): headroom against solver perturbation
     h = hashlib.sha256((text + '\0' + ' '.join(args) + '\0' + verus_version()).encode()).hexdigest()
     cpath = os.path.join(CACHE_DIR, h + '.json')
-    gen = os.path.join(GEN_DIR, GEN_NAME if tag == 'main' else 'fastqr_%s.rs' % tag)
-    with open(gen, 'w') as f:
-        f.write(text)
+    # the file handed to Verus is named after its content: concurrent checks of different trees never clobber
+    # each other's input (a copy under the plain name is kept for reading)
+    plain = os.path.join(GEN_DIR, GEN_NAME if tag == 'main' else 'fastqr_%s.rs' % tag)
+    gen = os.path.join(GEN_DIR, 'fastqr_%s_%s.rs' % (tag, h[:12]))
+    try:
+        with open(plain, 'w') as f:
+            f.write(text)
+    except OSError:
+        pass
     if os.path.exists(cpath) and not os.environ.get('VERIF_NOCACHE'):
         r = json.load(open(cpath))
         r['cached'] = True
         return r
+    tmp = gen + '.%d.tmp' % os.getpid()
+    with open(tmp, 'w') as f:
+        f.write(text)
+    os.replace(tmp, gen)
     t0 = time.time()
     cmd = ['verus', gen] + args
     p = subprocess.run(cmd, capture_output=True, text=True, cwd=GEN_DIR)
@@ -248,8 +258,19 @@ def run_verus(text, extra_args=(), tag='main'):
             raw.append(l)
     r = {'cmd': ' '.join(cmd), 'rc': p.returncode, 'wall_s': wall, 'out': out, 'diags': diags, 'raw': raw[:200],
          'hash': h, 'cached': False}
-    with open(cpath, 'w') as f:
+    tmpc = cpath + '.%d.tmp' % os.getpid()
+    with open(tmpc, 'w') as f:
         json.dump(r, f)
+    os.replace(tmpc, cpath)
+    # old content-addressed inputs are swept lazily (never the one in use)
+    try:
+        now = time.time()
+        for fn_ in os.listdir(GEN_DIR):
+            fp_ = os.path.join(GEN_DIR, fn_)
+            if re.fullmatch(r'fastqr_\w+_[0-9a-f]{12}\.rs', fn_) and fp_ != gen and now - os.path.getmtime(fp_) > 7200:
+                os.remove(fp_)
+    except OSError:
+        pass
     return r
 
 
